@@ -81,9 +81,12 @@ def leaf(i, inputs):
     return AF(inputs, lambda env, i=i, inputs=tuple(inputs): Poly.sym("f%d[%s]" % (i, ",".join("%s=%d" % (k, env[k]) for k in inputs))), "f%d" % i)
 
 
-def brute_force(factors, var_names, plate_names, eliminate, env_free):
+def brute_force(factors, var_names, plate_names, eliminate, env_free, scales=None):
     """the property's oracle: replicate each eliminated variable per index of the eliminated plates it lives in, multiply all
-    factor instances over the indices of their eliminated plates, sum over all copies"""
+    factor instances over the indices of their eliminated plates, sum over all copies.  A plate with scale s is unrolled as
+    s tiles of itself (index range SIZE * s, the factor entries repeating with period SIZE): 'plate scales act as exponents
+    of the plate's product' is then the plain unrolling of the tiled graph."""
+    scales = scales or {}
     eplates = [p for p in plate_names if p in eliminate]
     evars = [v for v in var_names if v in eliminate]
     lives = {}
@@ -94,17 +97,18 @@ def brute_force(factors, var_names, plate_names, eliminate, env_free):
                 fp = {p for p in eplates if p in f.inputs}
                 ps = fp if ps is None else ps & fp
         lives[v] = sorted(ps or ())
-    copies = [(v, idx) for v in evars if any(v in f.inputs for f in factors) for idx in itertools.product(range(SIZE), repeat=len(lives[v]))]
+    rng = lambda ps: itertools.product(*[range(SIZE * scales.get(p, 1)) for p in ps])
+    copies = [(v, idx) for v in evars if any(v in f.inputs for f in factors) for idx in rng(lives[v])]
     total = ZERO
     for vals in itertools.product(range(SIZE), repeat=len(copies)):
         assign = dict(zip(copies, vals))
         prod = ONE
         for f in factors:
             fplates = [p for p in eplates if p in f.inputs]
-            for pidx in itertools.product(range(SIZE), repeat=len(fplates)):
+            for pidx in rng(fplates):
                 pe = dict(zip(fplates, pidx))
                 env = dict(env_free)
-                env.update(pe)
+                env.update({p: i % SIZE for p, i in pe.items()})
                 for v in f.inputs:
                     if v in evars:
                         env[v] = assign[(v, tuple(pe[p] for p in lives[v]))]
@@ -203,6 +207,111 @@ class PartialSumProduct(_Plated):
                 break
         leaked = any(k in ctx.e for r in res for k in r.inputs)
         return [("equals_brute_force_unrolling_for_all_factor_contents", ok), ("eliminated_names_do_not_survive", not leaked)]
+
+
+class PowOp:
+    """pow_op(f, n): the n-fold product of f with itself, pointwise (n a positive integer)"""
+
+    def __call__(self, f, n):
+        if not (isinstance(n, int) and n >= 1):
+            raise Unsupported("plate scale %r" % (n,))
+
+        def fn(env):
+            v = f.at(env)
+            acc = v
+            for _ in range(n - 1):
+                acc = acc * v
+            return acc
+
+        return AF(list(f.inputs), fn, "pow")
+
+
+@register
+class PartialSumProductScaled(_Plated):
+    """partial_sum_product with plate_to_scale (integer scales): 'plate scales act as exponents of the plate's product' -- for
+    every listed plated graph, scale map and eliminate set, as a polynomial identity in the factor entries, the result equals the
+    brute-force unrolling of the TILED graph (a plate of size n and scale s unrolled as n*s indices, factor entries repeating
+    with period n, every variable inside the plate replicated per tile index).  Scales of plates that are not eliminated
+    have no effect.  structure bound: the listed graphs (a global variable, observation factors in one and two scaled plates,
+    local variables in one and two plates), scales 2 and 3, at most 12 replicated variable copies."""
+
+    qualname = "partial_sum_product"
+    mutants = (
+        ("scales of jointly eliminated plates added instead of multiplied (seeded C09_scales_added)", "                        scale = reduce(ops.mul, f_scales)\n                        f = pow_op(f, scale)\n                results.append(f)", "                        scale = reduce(ops.add, f_scales)\n                        f = pow_op(f, scale)\n                results.append(f)"),
+        ("scale dropped when a factor moves to a lower ordinal", "                    if f_scales:\n                        scale = reduce(ops.mul, f_scales)\n                        f = pow_op(f, scale)\n                ordinal_to_factors[new_plates].append(f)", "                ordinal_to_factors[new_plates].append(f)"),
+    )
+
+    GRAPHS = (
+        (("x",), ("x", "i"), ("i", "j")),
+        (("x",), ("x", "i", "j")),
+        (("x",), ("x", "i"), ("x", "y", "i")),
+        (("x", "i"), ("y", "i", "j")),
+        (("y", "i", "j"),),
+        (("x",), ("x", "y", "i"), ("y", "i", "j")),
+        (("x", "i"), ("x", "j")),
+    )
+    SCALES = ({"i": 2}, {"j": 3}, {"i": 2, "j": 3}, {"i": 3, "j": 2}, {"i": 2, "j": 2})
+
+    def structures(self, tier):
+        for g in self.GRAPHS:
+            used = sorted(set(sum(g, ())))
+            for sc in self.SCALES:
+                if any(p not in used for p in sc):
+                    continue
+                elims = [frozenset(used)]
+                if "x" in used and all("x" in f or not (set(f) & {"x", "y"}) for f in g if "x" in f):
+                    elims.append(frozenset(used) - {"x"})
+                if "j" in used and "i" in used:
+                    elims.append(frozenset(used) - {"j"} - {v for v in "xy" if any(v in f and "j" in f for f in g)})
+                for e in elims:
+                    copies = 0
+                    for v in "xy":
+                        if v in e:
+                            fs = [set(f) for f in g if v in f]
+                            if fs:
+                                lives = set.intersection(*[f & {"i", "j"} & e for f in fs])
+                                n = 1
+                                for p_ in lives:
+                                    n *= SIZE * sc.get(p_, 1)
+                                copies += n
+                    if copies > (10 if tier == "quick" else 13):
+                        continue
+                    yield "factors=%s,scales=%s,eliminate=%s" % (["".join(f) or "-" for f in g], ",".join("%s:%d" % kv for kv in sorted(sc.items())), "".join(sorted(e))), (g, tuple(sorted(e)), tuple(sorted(sc.items())))
+
+    def build(self, p, st):
+        g, e, sc = st
+        factors = [leaf(i, inp) for i, inp in enumerate(g)]
+        plates = frozenset(k for k in "ij" if any(k in f for f in g))
+        ns = self.ns()
+
+        class Ops:
+            mul = staticmethod(lambda a, b: a * b)
+            add = staticmethod(lambda a, b: a + b)
+
+        ns["ops"] = Ops
+        return Ctx(args=(SemiringOp("sum"), SemiringOp("prod"), factors, frozenset(e), plates), kwargs=dict(pow_op=PowOp(), plate_to_scale=dict(sc)), namespace=ns, g=g, e=frozenset(e), factors=factors, plates=plates, scales=dict(sc))
+
+    def may_raise(self, ctx, etype):
+        return etype == "ValueError"
+
+    def allow_vacuous(self, st):
+        return True
+
+    def ensures(self, ctx, result):
+        res = list(result)
+        free = sorted(set(sum(ctx.g, ())) - ctx.e)
+        ok = True
+        eff = {p_: s_ for p_, s_ in ctx.scales.items() if p_ in ctx.e}
+        for vals in itertools.product(range(SIZE), repeat=len(free)):
+            env = dict(zip(free, vals))
+            got = ONE
+            for r in res:
+                got = got * r.at({k: env[k] for k in r.inputs})
+            exp = brute_force(ctx.factors, ["x", "y"], ["i", "j"], ctx.e, env, eff)
+            if not got == exp:
+                ok = False
+                break
+        return [("equals_the_unrolling_of_the_tiled_graph_for_all_factor_contents", ok)]
 
 
 class _Variant(_Plated):
